@@ -22,7 +22,8 @@ for pid in args:
     if rnd > 1:
         taken = []
         for m in sorted(glob.glob('/verif/seeded/%s-*/meta.json' % pid)):
-            patch = open(os.path.join(os.path.dirname(m), 'patch.diff')).read()
+            pp = os.path.join(os.path.dirname(m), 'patch.diff')
+            patch = open(pp).read() if os.path.exists(pp) else ""
             files = sorted({l[6:].strip() for l in patch.splitlines() if l.startswith('+++ b/')})
             taken.append('  - %s (in %s)' % (json.load(open(m)).get('needs_to_manifest', ''), ', '.join(files)))
         txt += "\n\nIDEAS ALREADY TAKEN by earlier engineers - produce DIFFERENT ones (other functions, other mechanisms, other triggers):\n" + "\n".join(taken) + "\n"
